@@ -2,6 +2,7 @@ package tree
 
 import (
 	"fmt"
+	"google.golang.org/protobuf/proto"
 	"sort"
 	"strings"
 	"testing"
@@ -376,6 +377,26 @@ func TestC03_History(t *testing.T) {
 		sch := &ytypes.Schema{Root: root, SchemaTree: v.Schema().SchemaTree, Unmarshal: v.Schema().Unmarshal}
 		var hist []string
 		changed := 0
+		// the same history is also applied in ONE UnmarshalNotifications call (all diffs concatenated) to a
+		// second copy of the first version: a consumer may batch what it received
+		batchRoot := model.Build(cur)
+		batchSch := &ytypes.Schema{Root: batchRoot, SchemaTree: v.Schema().SchemaTree, Unmarshal: v.Schema().Unmarshal}
+		var batch []*gpb.Notification
+		first := cur
+		defer func() {
+			if rt.Failed() || len(batch) == 0 {
+				return
+			}
+			if err := ytypes.UnmarshalNotifications(batchSch, batch); err != nil {
+				if rec.Excuse(th.F28, th.IsF28(v, cur, err)) {
+					return
+				}
+				rt.Fatalf("applying the diffs of all %d steps in one call failed: %v\nhistory %v\nfirst version:\n%s\nlast version:\n%s\nnotifications: %s", steps, err, hist, first.Dump(), cur.Dump(), notifText(batch))
+			}
+			if d := leafSetDiff(cur, model.ObserveNorm(v, batchRoot), true); len(d) > 0 {
+				rt.Fatalf("the diffs of all %d steps applied in one call do not give the last version:\n  %s\nhistory %v\nfirst version:\n%s\nlast version:\n%s\nnotifications: %s", steps, th.JoinDiff(d), hist, first.Dump(), cur.Dump(), notifText(batch))
+			}
+		}()
 		for i := 0; i < steps; i++ {
 			next, edits := model.Mutate(rt, v, cur, rapid.IntRange(1, 4).Draw(rt, "edits"), model.MutOpts{Gen: o})
 			hist = append(hist, fmt.Sprintf("step %d: %v", i, edits))
@@ -386,8 +407,12 @@ func TestC03_History(t *testing.T) {
 			if len(ns) > 0 {
 				changed++
 			}
+			for _, n := range ns {
+				batch = append(batch, proto.Clone(n).(*gpb.Notification))
+			}
 			if err := ytypes.UnmarshalNotifications(sch, ns); err != nil {
 				if rec.Excuse(th.F28, th.IsF28(v, next, err)) {
+					batch = nil // the history ends here: nothing to apply in one call either
 					return
 				}
 				rt.Fatalf("applying the diff of step %d failed: %v\nhistory %v\nbefore:\n%s\nafter:\n%s\nnotifications: %s", i, err, hist, cur.Dump(), next.Dump(), notifText(ns))
